@@ -173,7 +173,23 @@ impl LineGen {
     }
 
     fn good_line(&mut self, rng: &mut Rng, for_1090: bool) -> Vec<u8> {
-        let f = self.frame(rng, for_1090);
+        let mut f = self.frame(rng, for_1090);
+        // now and then two frames glued into one line, or a frame with extra hex bytes behind it
+        // (the reference decodes the very same bytes, so whatever the decoder makes of them counts)
+        match rng.below(40) {
+            0 => {
+                let g = self.frame(rng, for_1090);
+                f.extend_from_slice(&g);
+            }
+            1 => f.extend((0..1 + rng.below(20)).map(|_| rng.next_u64() as u8)),
+            2 => {
+                // every leading byte now and then: each downlink format has its own read pattern
+                let mut g: Vec<u8> = (0..14 + rng.usize_below(16)).map(|_| rng.next_u64() as u8).collect();
+                g[0] = (rng.below(32) as u8) << 3 | rng.below(8) as u8;
+                f = g;
+            }
+            _ => {}
+        }
         let mut h = wire::hex(&f);
         match rng.below(10) {
             0 | 1 => h = h.to_uppercase(),
@@ -432,6 +448,11 @@ pub struct Row {
     pub msgs: String,
     /// reference rows only: the tracker's numeric values (lat, lon, distance)
     pub vals: Option<(f64, f64, f64)>,
+    /// reference rows only: acceptable altitude cells (the altitudes of the stored reports)
+    pub alt_ok: Vec<String>,
+    /// reference rows only: position known but only one stored report carries an altitude — the
+    /// statement leaves open whether the details are shown then (either all or none)
+    pub may_be_blank: bool,
 }
 
 /// does the text shown in a cell represent `val` at the precision it is shown with?
@@ -449,13 +470,17 @@ pub fn num_shown_matches(shown: &str, val: Option<f64>) -> bool {
 }
 
 pub fn row_matches(shown: &Row, reference: &Row) -> bool {
-    shown.icao == reference.icao
-        && shown.callsign == reference.callsign
-        && shown.alt == reference.alt
-        && shown.msgs == reference.msgs
-        && num_shown_matches(&shown.lat, reference.vals.map(|v| v.0))
-        && num_shown_matches(&shown.lon, reference.vals.map(|v| v.1))
-        && num_shown_matches(&shown.dist, reference.vals.map(|v| v.2))
+    if shown.icao != reference.icao || shown.callsign != reference.callsign || shown.msgs != reference.msgs {
+        return false;
+    }
+    let blank = shown.lat.is_empty() && shown.lon.is_empty() && shown.alt.is_empty() && shown.dist.is_empty();
+    match reference.vals {
+        None => blank,
+        Some(v) => {
+            (blank && reference.may_be_blank)
+                || (reference.alt_ok.contains(&shown.alt) && num_shown_matches(&shown.lat, Some(v.0)) && num_shown_matches(&shown.lon, Some(v.1)) && num_shown_matches(&shown.dist, Some(v.2)))
+        }
+    }
 }
 
 /// the rows on screen show tracker records: every row matches the record of its address, no
@@ -478,16 +503,23 @@ pub fn tables_match(shown: &[Row], reference: &[Row]) -> bool {
     shown.len() == reference.len() && rows_are_records(shown, reference)
 }
 
+/// Reference rows, built from the tracker's RECORDS (`get`), not from its derived views: the
+/// position columns are filled exactly when the record has a position, a distance and an altitude
+/// in one of its stored reports.
 pub fn table_of(a: &Airplanes) -> Vec<Row> {
     let mut v = vec![];
     for k in a.keys() {
         let st = a.get(*k).unwrap();
-        let d = a.aircraft_details(*k);
-        let (lat, lon, alt, dist, vals) = match d {
-            Some(d) => (format!("{:.3}", d.position.latitude), format!("{:.3}", d.position.longitude), d.altitude.to_string(), format!("{:.3}", d.kilo_distance), Some((d.position.latitude, d.position.longitude, d.kilo_distance))),
-            None => (String::new(), String::new(), String::new(), String::new(), None),
+        let c = &st.coords;
+        let alts: Vec<u16> = c.altitudes.iter().flatten().filter_map(|r| r.alt).collect();
+        let (lat, lon, alt, dist, vals, alt_ok, may_be_blank) = match (c.position, c.kilo_distance, alts.is_empty()) {
+            (Some(p), Some(d), false) => {
+                let ok: Vec<String> = alts.iter().map(u16::to_string).collect();
+                (format!("{:.3}", p.latitude), format!("{:.3}", p.longitude), ok[0].clone(), format!("{d:.3}"), Some((p.latitude, p.longitude, d)), ok, alts.len() < 2)
+            }
+            _ => (String::new(), String::new(), String::new(), String::new(), None, vec![String::new()], false),
         };
-        v.push(Row { icao: format!("{:02x}{:02x}{:02x}", k.0[0], k.0[1], k.0[2]), callsign: st.callsign.clone().unwrap_or_default(), lat, lon, alt, dist, msgs: st.num_messages.to_string(), vals });
+        v.push(Row { icao: format!("{:02x}{:02x}{:02x}", k.0[0], k.0[1], k.0[2]), callsign: st.callsign.clone().unwrap_or_default(), lat, lon, alt, dist, msgs: st.num_messages.to_string(), vals, alt_ok, may_be_blank });
     }
     v
 }
@@ -578,7 +610,7 @@ pub fn parse_airplanes_tab(s: &Screen) -> Option<(Vec<Row>, Vec<Vec<String>>, bo
             break;
         }
         let cells: Vec<String> = COLS.iter().map(|(a, b)| cell(*a, *b)).collect();
-        rows.push(Row { icao: cells[0].clone(), callsign: cells[1].clone(), lat: cells[2].clone(), lon: cells[3].clone(), alt: cells[5].clone(), dist: cells[8].clone(), msgs: cells[9].clone(), vals: None });
+        rows.push(Row { icao: cells[0].clone(), callsign: cells[1].clone(), lat: cells[2].clone(), lon: cells[3].clone(), alt: cells[5].clone(), dist: cells[8].clone(), msgs: cells[9].clone(), vals: None, alt_ok: vec![], may_be_blank: false });
         raw.push(cells);
     }
     Some((rows, raw, any_selected))
